@@ -427,6 +427,18 @@ func fixpointLaws(text string, prep, ansi bool) (laws []string, printed string, 
 			detail = fmt.Sprintf("printed text parses to %d statements", len(r.stmts))
 		}
 	}
+	// An unrecognised operator in the original text (token code Uncategorized, which goyacc's driver skips after
+	// letting it decide one step as "end of input") yields trees that violate operator precedence; their printed text
+	// means something else. Attributed to that defect when the text without the operator is unparseable or behaves.
+	if blank := blankUnrecognisedOperators(text); blank != text {
+		pb, okb := printOnce(blank, prep, ansi)
+		if !okb {
+			return []string{"print_parse_fixpoint:unrecognised_operator_skipped"}, p, detail
+		}
+		if p3, ok3 := printOnce(pb, prep, ansi); ok3 && p3 == pb {
+			return []string{"print_parse_fixpoint:unrecognised_operator_skipped"}, p, detail
+		}
+	}
 	orig := scanImpl(sanitize(text), prep, ansi).tokens
 	// which repairs change the text?
 	var cand []repair
@@ -676,21 +688,58 @@ func sigOf(kinds []string) string {
 	return s
 }
 
-// evalAgree: a constant query and its printed form evaluate to the same header and cells, or fail with the same error code.
+// blankUnrecognisedOperators replaces every run of operator runes that is not one of csvq's operators by a space
+// (outside quoted literals and comments). The scanner returns such a run as one token with the negative code
+// Uncategorized, which goyacc's driver takes for "no lookahead yet": the token decides one parsing step as if it were
+// the end of the input and is then dropped.
+func blankUnrecognisedOperators(text string) string {
+	valid := map[string]bool{">": true, "<": true, ">=": true, "<=": true, "<>": true, "!=": true, "==": true, "||": true, ":=": true,
+		"=": true, "!": true, "|": true, ":": true}
+	toks := roughTokens(text)
+	for i, t := range toks {
+		if t != "" && strings.Trim(t, "=<>!|:") == "" && !valid[t] {
+			toks[i] = " "
+		}
+	}
+	return strings.Join(toks, "")
+}
+
+// evalLaw: a constant query and its printed form must evaluate to the same header and cells, or fail with the same
+// error code. Returns "" when they agree (or the text is not a fixpoint case), else the law name.
+func (ps *parseStream) evalLaw(text string, ansi bool) (law, printed, detail string) {
+	ls, p, _ := fixpointLaws(text, false, ansi)
+	if len(ls) > 0 || p == "" {
+		return "", "", ""
+	}
+	a := ps.eval(text, ansi)
+	b := ps.eval(p, ansi)
+	if a == b {
+		return "", p, a
+	}
+	detail = "original: " + a + "  printed: " + b
+	if blank := blankUnrecognisedOperators(text); blank != text {
+		// the original text contains an unrecognised operator; without it the text evaluates like the printed form
+		// (or does not parse at all)
+		if eb := ps.eval(blank, ansi); eb == b || eb == "E:parse" {
+			return "print_parse_eval_agree:unrecognised_operator_skipped", p, detail
+		}
+	}
+	return "print_parse_eval_agree:other", p, detail
+}
+
 func (ps *parseStream) evalAgree(f failure, printed string) {
-	a := ps.eval(f.text, f.ansi)
-	b := ps.eval(printed, f.ansi)
+	law, p, detail := ps.evalLaw(f.text, f.ansi)
 	ps.o.Count("eval.compared")
-	if strings.HasPrefix(a, "E") {
-		ps.o.Count("eval.error")
-	} else {
-		ps.o.Count("eval.value")
+	if law == "" {
+		if strings.HasPrefix(detail, "E") {
+			ps.o.Count("eval.error")
+		} else {
+			ps.o.Count("eval.value")
+		}
+		return
 	}
-	if a != b {
-		f.printed = printed
-		f.detail = "original: " + a + "  printed: " + b
-		ps.fail("print_parse_eval_agree", f)
-	}
+	f.printed, f.detail = p, detail
+	ps.fail(law, f)
 }
 
 func (ps *parseStream) eval(sql string, ansi bool) (res string) {
@@ -738,7 +787,8 @@ func (ps *parseStream) witnesses() {
 			ps.one(s, m&1 != 0, m&2 != 0, "witness", false)
 		}
 	}
-	for _, s := range []string{"select - -1", "select -(-1)", "select 1 - -1", "select !(!true)", "select 1 + 2 * 3, 'a' || 'b', 7 % 3, -7 / 2", "select case when 1 < 2 then 'x' else 'y' end"} {
+	for _, s := range []string{"select - -1", "select -(-1)", "select 1 - -1", "select !(!true)", "select 1 + 2 * 3, 'a' || 'b', 7 % 3, -7 / 2", "select case when 1 < 2 then 'x' else 'y' end",
+		"select 2 + 3 !! * 4", "select 2 + 3 * 4", "select 1 = 2 !! / 3 = 4"} {
 		ps.one(s, false, false, "witness", true)
 	}
 	ps.one("select ?, :a, ?", true, false, "witness", false)
@@ -816,6 +866,9 @@ func (ps *parseStream) report() {
 			if strings.HasPrefix(law, "print_parse_fixpoint:") && law != "print_parse_fixpoint:print_panic" {
 				_, g.printed, g.detail = fixpointLaws(text, f.prep, f.ansi)
 			}
+			if strings.HasPrefix(law, "print_parse_eval_agree:") {
+				_, g.printed, g.detail = ps.evalLaw(text, f.ansi)
+			}
 			ms := []string{}
 			for m := range modes[f.text] {
 				ms = append(ms, m)
@@ -857,12 +910,9 @@ func (ps *parseStream) hasLaw(text string, f failure, law string) bool {
 		return false
 	case law == "parse_total:panic":
 		return tryParse(text, f.prep, f.ansi).panicked != nil
-	case law == "print_parse_eval_agree":
-		ls, p, _ := fixpointLaws(text, f.prep, f.ansi)
-		if len(ls) > 0 || p == "" {
-			return false
-		}
-		return ps.eval(text, f.ansi) != ps.eval(p, f.ansi)
+	case strings.HasPrefix(law, "print_parse_eval_agree:"):
+		l, _, _ := ps.evalLaw(text, f.ansi)
+		return l == law
 	case law == "parse_total:error_position_outside_input":
 		r := tryParse(text, f.prep, f.ansi)
 		if r.err == nil {
